@@ -111,6 +111,9 @@ def run_concrete(case: Case, values):
 
 def replay_goal(case: Case, values, goal_name):
     c, exc = run_concrete(case, values)
+    if c.assume_failed:
+        return {"reached": False, "reproduced": False, "detail": "inputs outside the assumed domain: %s" % "; ".join(c.assume_failed[:3]),
+                "exc": repr(exc) if exc else None, "exc_type": None, "outside_domain": True}
     for g in c.goals:
         if g.name == goal_name:
             r = g.term
@@ -212,7 +215,7 @@ def _run_case(case: Case):
                             vals = _model_json(reach_model)
                             c2, exc2 = run_concrete(case, vals)
                             rec["replay_exc"] = repr(exc2)
-                            rec["reproduced"] = exc2 is not None and type(exc2).__name__ == type(e).__name__
+                            rec["reproduced"] = exc2 is not None and type(exc2).__name__ == type(e).__name__ and not c2.assume_failed
                             rec["model"] = vals
                         else:
                             rec["reproduced"] = False
@@ -304,6 +307,7 @@ def _handle_sat(case, hyps, g, r):
         if r2.status == "sat":
             models.append(_model_json(r2.model))
     models.append(_model_json(r.model))
+    n_exact = len(models)
     # candidates near the solver's models that are exactly representable (any input that reproduces on
     # the real code is a genuine witness, wherever it came from)
     for base in list(models):
@@ -317,11 +321,18 @@ def _handle_sat(case, hyps, g, r):
         for salt in (1, 2, 3):
             models.append({k: (v + 0.05 * ((zlib.crc32(("%s/%d" % (k, salt)).encode()) % 2001) / 1000.0 - 1.0) if isinstance(v, float) else v)
                            for k, v in base.items()})
+    def robust(rp):
+        """a heuristic candidate (not a solver model) counts only if it violates the obligation by a clear margin: float
+        degeneracies of the replay oracle (a finite difference that underflows to exactly 0, a tie produced by rounding) must
+        not be reported as counterexamples"""
+        mg = rp.get("margin")
+        return rp["reproduced"] and (mg is None or mg > 1e-7)
+
     last = None
-    for vals in models:
+    for i, vals in enumerate(models):
         rp = replay_goal(case, vals, g.name)
         last = (vals, rp)
-        if rp["reproduced"]:
+        if rp["reproduced"] and (i < n_exact or robust(rp)):
             return {"status": "violated", "model": vals, "replay": rp}
     # Last resort before calling the solver's counterexample spurious (its values for the abstracted special functions
     # need not be realisable): look for a real witness near the solver's models by random perturbation, keeping signs.
@@ -345,7 +356,7 @@ def _handle_sat(case, hyps, g, r):
             else:
                 cand[k] = v
         rp = replay_goal(case, cand, g.name)
-        if rp["reproduced"]:
+        if robust(rp):
             rp["found_by"] = "perturbation of the solver's model (%d tries)" % tries
             return {"status": "violated", "model": cand, "replay": rp}
     return {"status": "spurious", "model": last[0], "replay": last[1]}
